@@ -158,18 +158,33 @@ def run_correspondence(prop, tier, seed, bins, drv):
         if profile not in bins:
             continue
         rc1, impl_out, e1 = sh([bins[profile], "impl"], stdin=cases.encode(), timeout=3000)
+        # clock-dependent operations: the implementation reports the clock value it ran at
+        # (" @now=<ns>"); the model is evaluated at that value (appended to the case line)
+        im, now_of = {}, {}
+        for l in impl_out.splitlines():
+            if " " not in l:
+                continue
+            cid, rest = l.split(" ", 1)
+            m = re.search(r" @now=(\d+)$", rest)
+            if m:
+                now_of[cid] = m.group(1)
+                rest = rest[:m.start()]
+            im[cid] = rest
+        mcases = []
+        for l in cases.splitlines():
+            cid = l.split(" ", 1)[0]
+            mcases.append(l + " n" + now_of[cid] if cid in now_of else l)
         rc2, model_out, e2 = sh([drv, "--dbg", dbg, "--oracle", bins[profile] + " oracle"],
-                                stdin=cases.encode(), timeout=3000)
+                                stdin=("\n".join(mcases) + "\n").encode(), timeout=3000)
         if rc1 != 0 or rc2 != 0:
             res["disagreements"].append({"kind": "runner-failed", "profile": profile,
                                          "detail": (e1 + e2)[-800:]})
             continue
-        im = dict(l.split(" ", 1) for l in impl_out.splitlines() if " " in l)
         mo = dict(l.split(" ", 1) for l in model_out.splitlines() if " " in l)
         res["profiles"].append(profile)
         for cid, line in by_id.items():
             a, b = im.get(cid), mo.get(cid)
-            if b is not None and b.startswith("skip:"):
+            if (b is not None and b.startswith("skip:")) or a == "skip":
                 res["skipped"] += 1
                 continue
             if a == b and a is not None:
@@ -342,8 +357,12 @@ def main():
         f = {"class": "correspondence:" + d.get("kind", ""), "input": d, "profile": d.get("profile")}
         k = match_known(prop, f, known)
         (known_hits if k else new_failures).append((d, k))
+    seen_known = set()
     for f, k in known_hits:
-        print("KNOWN-FINDING: property=%s %s" % (prop, k.get("what", k.get("class"))))
+        line = "KNOWN-FINDING: property=%s %s" % (prop, k.get("what", k.get("class")))
+        if line not in seen_known:
+            seen_known.add(line)
+            print(line)
     violations = 0
     if new_failures or problems:
         payload = {"property": prop, "tier": tier, "seed": seed,
